@@ -459,6 +459,86 @@ func (ln *lane) reqProbeFH(fh []byte) *request {
 	return ln.finish(req, opPutFH(fh), &nfsv4.NfsArgop4_OP_GETATTR{Opgetattr: nfsv4.Getattr4args{AttrRequest: []uint32{1 << nfsv4.FATTR4_SIZE}}})
 }
 
+func (ln *lane) reqBlobCheck(bl *countingLeaf, byName bool) *request {
+	req := ln.w.newRequest(ln, kBlobCheck)
+	req.blob = bl
+	req.fh = bl.fh
+	read := &nfsv4.NfsArgop4_OP_READ{Opread: nfsv4.Read4args{Offset: 0, Count: 64}}
+	if byName {
+		req.name = bl.blob.name
+		req.desc = fmt.Sprintf("PUTROOTFH LOOKUP %s GETFH READ(anonymous)", req.name)
+		return ln.finish(req, opPutRootFH(), &nfsv4.NfsArgop4_OP_LOOKUP{Oplookup: nfsv4.Lookup4args{Objname: req.name}}, opGetFH(), read)
+	}
+	req.desc = fmt.Sprintf("PUTFH %x (file#%d) READ(anonymous)", bl.fh, bl.id)
+	return ln.finish(req, opPutFH(bl.fh), read)
+}
+
+var currentStateID = nfsv4.Stateid4{Seqid: 1}
+
+// reqCurSid: an NFSv4.1 COMPOUND in which OPEN is followed, possibly after
+// operations that replace, save or restore the current file handle, by an
+// operation that refers to the open state as "the current stateid".
+//
+//	0: OPEN a, op                            (acts on a's state)
+//	1: OPEN a, PUTFH b, op                   (the current stateid is void)
+//	2: OPEN a, PUTFH a, op                   (void as well)
+//	3: OPEN a, SAVEFH, PUTFH b, RESTOREFH, op (restored along with the handle)
+//	4: OPEN a, PUTFH b, SAVEFH, RESTOREFH, op (what was saved was void)
+func (ln *lane) reqCurSid() *request {
+	w := ln.w
+	t := w.t
+	c := ln.cl
+	req := w.newRequest(ln, kCurSid)
+	o := pick(t, ln.owners)
+	req.o = o
+	blob := t.Bool(1, 2)
+	if blob {
+		req.name = pick(t, w.blobNames)
+		req.access = 1
+	} else {
+		req.name = pick(t, w.names)
+		req.access = uint32(1 + t.Choice(3))
+	}
+	req.curVariant = t.Weighted([]int{3, 4, 2, 2, 2})
+	if req.curVariant == 2 && !blob {
+		req.curVariant = 1
+	}
+	req.curOp = "READ"
+	if t.Bool(1, 3) {
+		req.curOp = "CLOSE"
+	}
+	other := w.fhOfLeaf(t.Choice(max(1, w.nLeaves())))
+	if req.curVariant == 2 {
+		other = w.blobByName(req.name).fh
+	}
+	var final nfsv4.NfsArgop4
+	if req.curOp == "READ" {
+		final = &nfsv4.NfsArgop4_OP_READ{Opread: nfsv4.Read4args{Stateid: currentStateID, Offset: 0, Count: 64}}
+	} else {
+		final = &nfsv4.NfsArgop4_OP_CLOSE{Opclose: nfsv4.Close4args{OpenStateid: currentStateID}}
+	}
+	ops := []nfsv4.NfsArgop4{opPutRootFH(), &nfsv4.NfsArgop4_OP_OPEN{Opopen: nfsv4.Open4args{
+		ShareAccess: req.access, Owner: nfsv4.StateOwner4{Clientid: c.id, Owner: o.key},
+		Openhow: &nfsv4.Openflag4_default{Opentype: nfsv4.OPEN4_NOCREATE}, Claim: &nfsv4.OpenClaim4_CLAIM_NULL{File: req.name},
+	}}, opGetFH()}
+	how := ""
+	switch req.curVariant {
+	case 1, 2:
+		ops = append(ops, opPutFH(other))
+		how = fmt.Sprintf("PUTFH %x", other)
+	case 3:
+		ops = append(ops, &nfsv4.NfsArgop4_OP_SAVEFH{}, opPutFH(other), &nfsv4.NfsArgop4_OP_RESTOREFH{})
+		how = fmt.Sprintf("SAVEFH PUTFH %x RESTOREFH", other)
+	case 4:
+		ops = append(ops, opPutFH(other), &nfsv4.NfsArgop4_OP_SAVEFH{}, &nfsv4.NfsArgop4_OP_RESTOREFH{})
+		how = fmt.Sprintf("PUTFH %x SAVEFH RESTOREFH", other)
+	}
+	ops = append(ops, final)
+	req.valid = true
+	req.desc = fmt.Sprintf("OPEN owner=%s name=%s access=%s nocreate; %s; %s(current stateid)", o.key, req.name, accessName(req.access), how, req.curOp)
+	return ln.finish(req, ops...)
+}
+
 // --- client-level requests ---------------------------------------------------
 
 func (c *client) verifier() nfsv4.Verifier4 {
@@ -712,8 +792,20 @@ func (ln *lane) choose() (req *request, quit bool) {
 			}
 			return ln.reqOpen(o, "", access, h, pick(t, fs))
 		}
+		if t.Bool(1, 3) {
+			// A blob file (read-only).
+			if t.Bool(3, 4) {
+				access = 1
+			}
+			return ln.reqOpen(o, pick(t, w.blobNames), access, how, nil)
+		}
 		return ln.reqOpen(o, pick(t, w.names), access, how, nil)
 	})
+	// Blob files: the handle by name, the file by handle.
+	add(4, func() *request { return ln.reqBlobCheck(w.blobByName(pick(t, w.blobNames)), t.Bool(1, 2)) })
+	if c.minor == 1 {
+		add(5, func() *request { return ln.reqCurSid() })
+	}
 	if len(files) > 0 {
 		add(7, func() *request {
 			of := pick(t, files)
@@ -763,12 +855,12 @@ func (ln *lane) choose() (req *request, quit bool) {
 	if c.minor == 0 {
 		add(2, func() *request { return ln.reqReleaseLockOwner(pick(t, ln.lockOwners)) })
 	}
-	add(1, func() *request { return ln.reqLockT(fhOfLeaf(t.Choice(max(1, w.nLeaves()))), pick(t, ln.lockOwners)) })
+	add(1, func() *request { return ln.reqLockT(w.fhOfLeaf(t.Choice(max(1, w.nLeaves()))), pick(t, ln.lockOwners)) })
 	// I/O.
 	add(12, func() *request { return ln.chooseIO() })
 	add(1, func() *request { return ln.reqRenew() })
 	add(2, func() *request { return ln.reqRemove(pick(t, w.names)) })
-	add(2, func() *request { return ln.reqProbeFH(fhOfLeaf(t.Choice(max(1, w.nLeaves())))) })
+	add(2, func() *request { return ln.reqProbeFH(w.fhOfLeaf(t.Choice(max(1, w.nLeaves())))) })
 	// Requests that must be rejected.
 	add(3, func() *request { return ln.chooseProbe() })
 	// Client re-registers under a new boot verifier ("reboot"), or tears
@@ -850,7 +942,7 @@ func (ln *lane) chooseIO() *request {
 		return ln.reqIO(of.fh, sid, op, "future sequence")
 	case variant == 2 && len(own) > 0:
 		of := pick(t, own)
-		return ln.reqIO(fhOfLeaf(t.Choice(nLeaves)), of.sid, op, "own state, arbitrary file")
+		return ln.reqIO(w.fhOfLeaf(t.Choice(nLeaves)), of.sid, op, "own state, arbitrary file")
 	case variant == 3 && len(all) > 0:
 		of := pick(t, all)
 		return ln.reqIO(of.fh, of.sid, op, "state of "+string(of.o.key))
@@ -867,7 +959,7 @@ func (ln *lane) chooseIO() *request {
 			sid.Seqid = 0xffffffff
 			how = "READ bypass state ID"
 		}
-		return ln.reqIO(fhOfLeaf(t.Choice(nLeaves)), sid, op, how)
+		return ln.reqIO(w.fhOfLeaf(t.Choice(nLeaves)), sid, op, how)
 	case variant == 6:
 		var sid nfsv4.Stateid4
 		copy(sid.Other[:], stateIDPrefix[:])
@@ -877,20 +969,20 @@ func (ln *lane) chooseIO() *request {
 			sid.Other = [12]byte{}
 			binary.LittleEndian.PutUint64(sid.Other[:], uint64(20+t.Choice(5)))
 		}
-		return ln.reqIO(fhOfLeaf(t.Choice(nLeaves)), sid, op, "made-up state ID")
+		return ln.reqIO(w.fhOfLeaf(t.Choice(nLeaves)), sid, op, "made-up state ID")
 	case variant == 7 && c.minor == 0:
 		sid := nfsv4.Stateid4{Seqid: 1, Other: [12]byte{1, 2, 3, 4, 5, 6, 7, 8, 9, 10, 11, 12}}
-		return ln.reqIO(fhOfLeaf(t.Choice(nLeaves)), sid, op, "state ID of another server instance")
+		return ln.reqIO(w.fhOfLeaf(t.Choice(nLeaves)), sid, op, "state ID of another server instance")
 	case variant == 8 && len(all) > 0:
 		// Any state on any file handle.
 		of := pick(t, all)
-		return ln.reqIO(fhOfLeaf(t.Choice(nLeaves)), of.sid, op, "state of "+string(of.o.key)+", arbitrary file")
+		return ln.reqIO(w.fhOfLeaf(t.Choice(nLeaves)), of.sid, op, "state of "+string(of.o.key)+", arbitrary file")
 	}
 	if len(own) > 0 {
 		of := pick(t, own)
 		return ln.reqIO(of.fh, of.sid, op, "own open state")
 	}
-	return ln.reqIO(fhOfLeaf(t.Choice(nLeaves)), nfsv4.Stateid4{}, op, "anonymous state ID")
+	return ln.reqIO(w.fhOfLeaf(t.Choice(nLeaves)), nfsv4.Stateid4{}, op, "anonymous state ID")
 }
 
 // chooseProbe builds a request that the server must reject: a sequence ID
@@ -921,7 +1013,7 @@ func (ln *lane) chooseProbe() *request {
 			if len(last.args.Argarray) > 1 {
 				if _, isRoot := last.args.Argarray[1].(*nfsv4.NfsArgop4_OP_PUTROOTFH); isRoot {
 					req.desc = "false-retry probe: PUTFH GETFH"
-					return ln.finish(req, opPutFH(fhOfLeaf(0)), opGetFH())
+					return ln.finish(req, opPutFH(w.fhOfLeaf(0)), opGetFH())
 				}
 			}
 			req.desc = "false-retry probe: PUTROOTFH GETFH"
